@@ -1195,6 +1195,7 @@ func main() {
 	leanNS := flag.String("ns", "Gen", "Lean namespace")
 	outGo := flag.String("go", "", "Go type registry output (for the harness)")
 	outFacts := flag.String("facts", "", "facts.json output (facts about codec/*.go and package-level state)")
+	outLock := flag.String("leanlock", "", "Lean data output: the registry functions as lock programs (GenLock.lean)")
 	flag.Parse()
 
 	sc := &Schema{}
@@ -1294,9 +1295,29 @@ func main() {
 	if *outGo != "" {
 		os.WriteFile(*outGo, []byte(emitGo(sc)), 0o644)
 	}
-	if *outFacts != "" {
-		b, _ := json.MarshalIndent(extractFacts(*root), "", " ")
-		os.WriteFile(*outFacts, b, 0o644)
+	if *outFacts != "" || *outLock != "" {
+		fx := extractFacts(*root)
+		if *outFacts != "" {
+			b, _ := json.MarshalIndent(fx, "", " ")
+			os.WriteFile(*outFacts, b, 0o644)
+		}
+		if *outLock != "" {
+			prog := func(name string) string {
+				st := fx.LockStmts[name]
+				if st == nil {
+					return "[.opaque]"
+				}
+				var parts []string
+				for _, x := range st {
+					parts = append(parts, "."+x)
+				}
+				return "[" + strings.Join(parts, ", ") + "]"
+			}
+			src := "-- generated by xlate from codec/checksum.go; do not edit\nimport FinProto.LockProg\nnamespace FinProto.Gen\nopen FinProto.Reg\n\n" +
+				"/-- the bodies of Registry / Get / Remove / Clear as lock programs -/\ndef lockProgs : Progs :=\n  { reg := " + prog("Registry") + ",\n    get := " + prog("Get") +
+				",\n    remove := " + prog("Remove") + ",\n    clear := " + prog("Clear") + " }\n\nend FinProto.Gen\n"
+			os.WriteFile(*outLock, []byte(src), 0o644)
+		}
 	}
 	nOpaque := 0
 	for _, t := range sc.Types {
